@@ -111,6 +111,25 @@ pub fn replay_case<H: HB>(c: &Case) -> Result<(), String> {
     let mut q = make_root::<H>(c.double, &c.root, &c.universe)?;
     let mut unordered = false;
     let mut m = model_of(&q.snap());
+    if c.probe.as_deref() == Some("cost-small-scope") {
+        // history, then the last operation with its comparisons counted
+        if let Some(op) = &c.last {
+            for (i, o) in c.ops.iter().enumerate() {
+                let ap = apply(&q, unordered, &m, o, &c.universe).map_err(|e| format!("step {i} {o:?}: {e}"))?;
+                q = ap.q;
+                unordered = ap.unordered;
+                m = ap.model;
+            }
+            let n = m.len();
+            let ap = apply(&q, unordered, &m, op, &c.universe).map_err(|e| format!("{op:?}: {e}"))?;
+            println!("  {op:?} on {n} elements: {} comparisons", ap.cmps);
+            return match crate::cost::small_scope_violation(op_name(op), q.double(), n, ap.cmps) {
+                Some(e) => Err(e),
+                None => Ok(()),
+            };
+        }
+        return Err(c.detail.clone());
+    }
     let last_is_step = c.probe.is_none();
     for (i, op) in c.ops.iter().chain(c.last.iter().filter(|_| last_is_step)).enumerate() {
         crate::crash::set_case(|| c.clone());
